@@ -16,6 +16,18 @@ Proof.
     rewrite <- E, parse_print_dec. cbn. f_equal. lia.
 Qed.
 
+(* a printed hexadecimal number starts with a digit or an upper-case letter, never with a sign *)
+Lemma print_hex_head n : exists b r, print_hex_N n = b :: r /\ N.eqb (bN b) 45 = false /\ N.eqb (bN b) 43 = false.
+Proof.
+  unfold print_hex_N. pose proof (to_hex_uint_nonnil n). destruct (N.to_hex_uint n); try congruence;
+    cbn; eexists; eexists; (split; [reflexivity|split; reflexivity]).
+Qed.
+Lemma parse_signed_hex_print n : parse_signed_hex (print_hex_N n) = Some (Z.of_N n).
+Proof.
+  destruct (print_hex_head n) as (b & r & E & A & B). rewrite E. cbn [parse_signed_hex]. rewrite A, B.
+  rewrite <- E, parse_print_hex. reflexivity.
+Qed.
+
 (* literals printed by Ident never collide with the keywords or prefixes *)
 Lemma print_Z_head x : exists b r, print_Z x = b :: r /\ (isdigit b = true \/ bN b = 45%N).
 Proof.
@@ -55,7 +67,7 @@ Section RoundTrip.
       match type of E with Ok ?l = Ok _ => assert (lit = l) as -> by congruence end; clear E.
     - apply andb_prop in C as [C _]. apply Z.leb_le in C.
       unfold parse_int. destruct (u0x_not_keyword (print_hex_N (Z.to_N x))) as [A B].
-      rewrite A, B, strip_prefix_app, parse_print_hex. f_equal. lia.
+      rewrite A, B, strip_prefix_app, parse_signed_hex_print. f_equal. lia.
     - destruct (print_Z_head x) as (b & r & E & H). unfold parse_int. rewrite E.
       destruct (head_not_keyword b r H) as (A & B & U & S). rewrite A, B, U, S.
       rewrite <- E, parse_signed_print. reflexivity.
@@ -73,7 +85,7 @@ End RoundTrip.
 Theorem parse_u0x_value w n : parse_int w (p_u0x ++ print_hex_N n) = Ok (Z.of_N n).
 Proof.
   unfold parse_int. destruct (u0x_not_keyword (print_hex_N n)) as [A B].
-  rewrite A, B, strip_prefix_app, parse_print_hex. reflexivity.
+  rewrite A, B, strip_prefix_app, parse_signed_hex_print. reflexivity.
 Qed.
 
 (* the top bit of an n < 2^w is set iff n >= 2^(w-1) *)
@@ -99,8 +111,8 @@ Theorem parse_s0x_value w n : (0 < w)%N -> (n < 2 ^ w)%N ->
   Ok (if (Z.of_N n <? 2 ^ (Z.of_N w - 1)) then Z.of_N n else Z.of_N n - 2 ^ Z.of_N w).
 Proof.
   intros Hw Hn. unfold parse_int. destruct (s0x_not_keyword (print_hex_N n)) as (A & B & C).
-  rewrite A, B, C, strip_prefix_app, parse_print_hex.
-  rewrite (top_bit w n Hw Hn).
+  rewrite A, B, C, strip_prefix_app, parse_signed_hex_print.
+  rewrite Z.testbit_of_N, (top_bit w n Hw Hn).
   destruct (Z.of_N n <? 2 ^ (Z.of_N w - 1)); reflexivity.
 Qed.
 Print Assumptions print_parse.
